@@ -48,3 +48,22 @@ pub open spec fn add_name_post(o: &SourceMapBuilder, f: &SourceMapBuilder, name:
             && (forall|k: Arc<str>| #[trigger] o.name_map@.contains_key(k) ==> f.name_map@.contains_key(k) && f.name_map@[k] == o.name_map@[k])
             && f.names@.len() == o.names@.len() + 1 && arc_chars(&f.names@.last()) == name && f.names@.drop_last() == o.names@)
 }
+
+/// the tables mirror the interning maps exactly: entry i is the string interned under id i, and every id is taken
+pub open spec fn table_mirrors(map: Map<Arc<str>, u32>, table: Seq<Arc<str>>) -> bool {
+    &&& forall|k: Arc<str>| #[trigger] map.contains_key(k) ==> map[k] < table.len() && arc_chars(&table[map[k] as int]) == arc_chars(&k)
+    &&& forall|i: int| 0 <= i < table.len() ==> map.contains_key(#[trigger] table[i]) && map[table[i]] == i
+}
+/// full builder invariant while no name is rewritten in place (set_source / strip_prefixes are not used)
+pub open spec fn bfull(b: &SourceMapBuilder) -> bool {
+    bwf(b) && table_mirrors(b.source_map@, b.sources@) && table_mirrors(b.name_map@, b.names@)
+}
+/// under the full invariant an id names a string exactly when the table holds it there
+pub proof fn lemma_has_id_iff(map: Map<Arc<str>, u32>, table: Seq<Arc<str>>, s: Seq<char>, i: u32)
+    requires interner_wf(map, table.len()), table_mirrors(map, table)
+    ensures has_id(map, s, i) <==> (i < table.len() && arc_chars(&table[i as int]) == s)
+{
+    if i < table.len() && arc_chars(&table[i as int]) == s {
+        assert(map.contains_key(table[i as int]) && map[table[i as int]] == i);
+    }
+}
